@@ -332,6 +332,55 @@ func notificationFacts() {
 		"a subscriber without start offset is positioned at qat.CommitOffset(); the dispatch loop reads from offset+1")
 }
 
+// selectorFacts: how the anti-affinity selector combines labels, and the selector chain order.
+func selectorFacts() {
+	f := parse("coordinator/selectors/single/anti_affinity_selector.go")
+	fn := funcDecl(f, "serverAntiAffinitiesSelector", "Select")
+	body := ""
+	if fn != nil {
+		body = squash(src(fn.Body))
+	}
+	union := strings.Contains(body, "if affinityIdx == 0 { candidates.Add(labelSatisfiedCandidates.Values()...) continue }") &&
+		strings.Contains(body, "if affinityIdx > 0 { labelSatisfiedCandidates = labelSatisfiedCandidates.Intersection(candidates) }") &&
+		strings.Contains(body, "candidates = labelSatisfiedCandidates")
+	add("antiAffinityFirstRuleUnion", "Bool", boolLean(union), "coordinator/selectors/single/anti_affinity_selector.go: Select",
+		"labels of rule 0 are added (union), labels of later rules intersected with the running candidate set")
+	shape := union && strings.Contains(body, "labelSatisfiedCandidates.Intersection(candidates)") && !strings.Contains(body, "Intersection(ssContext.Candidates)")
+	add("antiAffinityLaterRulesIntersectRunningSet", "Bool", boolLean(shape), "coordinator/selectors/single/anti_affinity_selector.go: Select",
+		"later rules intersect with the running set `candidates` (not with the context's full candidate set)")
+	s := parse("coordinator/selectors/single/selector.go")
+	ns := funcDecl(s, "", "NewSelector")
+	chain := ns != nil && strings.Contains(squash(src(ns.Body)), "&serverAntiAffinitiesSelector{}, &lowerestLoadSelector{}, &finalSelector{}")
+	add("selectorChainOrder", "Bool", boolLean(chain), "coordinator/selectors/single/selector.go: NewSelector", "anti-affinity, lowest load, final")
+	sel := funcDecl(s, "server", "Select")
+	selb := ""
+	if sel != nil {
+		selb = squash(src(sel.Body))
+	}
+	refuses := !strings.Contains(selb, "panic(") && strings.Contains(selb, "if serverId == \"\" { return \"\", selectors.ErrUnsatisfiedEnsembleReplicas }")
+	add("selectorRefusesWhenNoCandidate", "Bool", boolLean(refuses), "coordinator/selectors/single/selector.go: (*server).Select",
+		"when no selector of the chain picks a server the chain returns ErrUnsatisfiedEnsembleReplicas (no panic)")
+	c := parse("coordinator/controllers/shard_controller.go")
+	rl := funcDecl(c, "", "replaceInList")
+	rlb := ""
+	if rl != nil {
+		rlb = squash(src(rl.Body))
+	}
+	byID := strings.Contains(rlb, "item.GetIdentifier() != oldServer.GetIdentifier()") && strings.Contains(rlb, "res = append(res, newServer)")
+	add("replaceInListComparesIdentifiers", "Bool", boolLean(byID), "coordinator/controllers/shard_controller.go: replaceInList", rlb)
+	b := parse("coordinator/balancer/scheduler.go")
+	sw := funcDecl(b, "nodeBasedBalancer", "swapShard")
+	swb := ""
+	if sw != nil {
+		swb = squash(src(sw.Body))
+	}
+	swapOk := strings.Contains(swb, "if candidateID == fromNodeID { continue } selected.Add(candidateID)") &&
+		strings.Contains(swb, "sContext.SetSelected(selected)") && strings.Contains(swb, "r.selector.Select(sContext)") &&
+		strings.Contains(swb, "if targetNodeID == fromNodeID { return false, nil }")
+	add("swapShardSelectsAgainstRestOfEnsemble", "Bool", boolLean(swapOk), "coordinator/balancer/scheduler.go: swapShard",
+		"selected = ensemble minus the node being left; SetSelected; the single-server selector picks the target; target == from is refused")
+}
+
 // moreFacts collects the facts of the other properties (added per property).
 func moreFacts() {
 	walFacts()
@@ -340,4 +389,5 @@ func moreFacts() {
 	channelFacts()
 	shardFacts()
 	notificationFacts()
+	selectorFacts()
 }
